@@ -39,6 +39,8 @@ def cases(draw):
             }
         )
     case["selections"] = sels
+    # free-text summary entries left empty (the typed ones - ints, floats, ids - must be filled)
+    case["summary_blank"] = draw(st.one_of(st.none(), st.integers(0, 10**6)))
     return case
 
 
@@ -54,6 +56,8 @@ def classify(case):
         labels.append("blank-header")
     if case["selections"]:
         labels.append("selections")
+    if case.get("summary_blank") is not None:
+        labels.append("empty-summary-values")
     return case["level"] == "1.1" or blank, labels
 
 
@@ -79,8 +83,21 @@ def to_sel(s, n):
     return s
 
 
+BLANKABLE = {("Odi", "SiteDateTime"), ("Pds", "MapDirection"), ("Pds", "OrbitDataPrecision"), ("Pds", "AttitudeDataPrecision"),
+             ("Pdi", "ProductFormat"), ("Ach", "TimeCheck"), ("Rad", "PracticeResultCode"), ("Lbi", "Satellite"), ("Lbi", "ObservationDate")}
+
+
 def run_case(case):
     spec = common.spec_from(case)
+    if case.get("summary_blank") is not None:
+        import random
+
+        rng = random.Random(case["summary_blank"])
+        names = product.file_names(spec["scene_id"], spec["product_id"], spec["images"])
+        entries = product.default_summary_entries(spec, names)
+        entries = [(s, k, "" if (s, k) in BLANKABLE and rng.random() < 0.5 else v) for s, k, v in entries]
+        entries += [("Odi", "Remark", ""), ("Lbi", "Comment", rng.choice(["", " ", "x"]))]
+        spec["summary_entries"] = entries
     files, info = product.build_product(spec)
     out = []
     with harness.Materialised(files, "memory") as prod:
